@@ -22,6 +22,9 @@ const N_FRONTIER: u32 = 105;
 const N_REWIND_START: u32 = 106;
 const N_FINISHED: u32 = 107;
 const N_COMMITTED: u32 = 108;
+const N_VTS: u32 = 109;
+/// harness-side switch point between a validation claim and its timestamp / between the timestamp and its publication
+const HP_VALIDATE: u32 = 900;
 
 /// Run `threads` closures as controlled harness threads; returns the controller output.
 fn run_threads<'a>(schedule: &Schedule, abort: Arc<AtomicBool>, threads: Vec<Box<dyn FnOnce() + Send + 'a>>) -> crate::dsched::RunOutput {
@@ -75,6 +78,9 @@ pub enum CursorOp {
     Rewind(u8),
     Publish(u8),
     ReadFrontier,
+    /// what Scheduler::validate does with the context: claim one index, take the logical timestamp
+    /// (before "scanning"), then record it as the unconfirmed timestamp of the index
+    Validate,
 }
 
 #[derive(Clone, Debug, Serialize, Deserialize)]
@@ -115,6 +121,20 @@ fn c15_op(ctx: &VContext, n: usize, op: &CursorOp) {
         CursorOp::ReadFrontier => {
             let f = ctx.execution_frontier();
             ctl.note(N_FRONTIER, f, 0);
+        }
+        CursorOp::Validate => {
+            ctl.note(N_CLAIM_START, 0, 0);
+            match ctx.next_validation_idx(n) {
+                Some(c) => {
+                    ctl.note(N_CLAIM, c, n);
+                    ctl.harness_point(HP_VALIDATE);
+                    let ts = ctx.logical_timestamp();
+                    ctl.note(N_VTS, c, ts);
+                    ctl.harness_point(HP_VALIDATE);
+                    ctx.unconfirmed(c, ts);
+                }
+                None => ctl.note(N_CLAIM_NONE, 0, 0),
+            }
         }
     }
 }
@@ -236,10 +256,32 @@ pub fn eval_c15(case: &C15Case) -> CaseEval {
             _ => {}
         }
     }
+    // --- last sentence of the property, at the level of the context: a validation whose timestamp
+    // was taken before a rewind covering its index was even invoked must be ineligible for finality
+    // once that rewind has returned. Eligibility is the production rule of lock_finality_candidate:
+    // unconfirmed_ts > max(lower_timestamp(0..=k)); lower timestamps only grow, so reading them at
+    // quiescence is the most permissive moment for the code.
+    let mut stale_pairs = 0u64;
+    for (pos, e) in log.iter().enumerate() {
+        let Ev::Note { code: N_REWIND_START, a: j, .. } = e else { continue };
+        for e2 in &log[..pos] {
+            let Ev::Note { code: N_VTS, a: k, b: ts } = e2 else { continue };
+            if k < j {
+                continue;
+            }
+            stale_pairs += 1;
+            let lower = (0..=*k).map(|i| ctx.lower_timestamp(i)).max().unwrap_or(0);
+            if *ts > lower {
+                ev.failure = Some(("stale-validation-eligible".into(), format!("validation of index {k} took timestamp {ts} before rewind_validation_to({j}) was invoked, yet after that rewind returned the largest rewind timestamp over 0..={k} is {lower} < {ts}: the finality rule (unconfirmed_ts > carried lower_ts) would accept the stale validation")));
+                return ev;
+            }
+        }
+    }
+    *ev.hist.entry("validations_predating_a_covering_rewind".into()).or_insert(0) += stale_pairs;
     *ev.hist.entry("runs_rewind_overlapping_claim".into()).or_insert(0) += overlap as u64;
     *ev.hist.entry("runs_out_of_order_publication".into()).or_insert(0) += out_of_order as u64;
     *ev.hist.entry("steps".into()).or_insert(0) += out.stats.steps;
-    ev.nontrivial = overlap || out_of_order;
+    ev.nontrivial = overlap || out_of_order || stale_pairs > 0;
     ev
 }
 
@@ -733,28 +775,43 @@ pub fn exhaustive_c15(cap_per_scenario: usize, thorough: bool) -> ExhaustiveRepo
             }
         }
     }
-    // a prefix thread makes the first two indices executed so that claims have something to take
+    // the first two indices are executed and index 0 is claimed so that claims have something to take
+    let mut cases: Vec<C15Case> = Vec::new();
     for (i, p1) in programs.iter().enumerate() {
         for p2 in programs.iter().skip(i) {
-            let case0 = C15Case { n: 3, setup: vec![CursorOp::Publish(0), CursorOp::Publish(1), CursorOp::Claim(1)], programs: vec![p1.clone(), p2.clone()], schedule: Schedule::default() };
-            rep.scenarios += 1;
-            let mut fail = None;
-            let (n, done) = crate::dsched::enumerate_schedules(cap_per_scenario, |s| {
-                let case = C15Case { schedule: s.clone(), ..case0.clone() };
-                let (ev, widths) = eval_c15_with_widths(&case);
-                if let Some((c, d)) = ev.failure {
-                    fail = Some((c, d, serde_json::to_value(&case).unwrap()));
-                    return None;
-                }
-                Some(widths)
+            cases.push(C15Case { n: 3, setup: vec![CursorOp::Publish(0), CursorOp::Publish(1), CursorOp::Claim(1)], programs: vec![p1.clone(), p2.clone()], schedule: Schedule::default() });
+        }
+    }
+    // timestamp family (last sentence): one validator against a thread issuing two rewinds; n = 4,
+    // everything executed, indices 0..2 already claimed
+    for a in 0u8..4 {
+        for b in 0u8..4 {
+            cases.push(C15Case {
+                n: 4,
+                setup: vec![CursorOp::Publish(0), CursorOp::Publish(1), CursorOp::Publish(2), CursorOp::Publish(3), CursorOp::Claim(3)],
+                programs: vec![vec![CursorOp::Rewind(a), CursorOp::Rewind(b)], vec![CursorOp::Validate]],
+                schedule: Schedule::default(),
             });
-            rep.schedules += n as u64;
-            rep.exhausted_all &= done;
-            if let Some(f) = fail {
-                rep.failure = Some(f);
-                rep.exhausted_all = false;
-                return rep;
+        }
+    }
+    for case0 in cases {
+        rep.scenarios += 1;
+        let mut fail = None;
+        let (n, done) = crate::dsched::enumerate_schedules(cap_per_scenario, |s| {
+            let case = C15Case { schedule: s.clone(), ..case0.clone() };
+            let (ev, widths) = eval_c15_with_widths(&case);
+            if let Some((c, d)) = ev.failure {
+                fail = Some((c, d, serde_json::to_value(&case).unwrap()));
+                return None;
             }
+            Some(widths)
+        });
+        rep.schedules += n as u64;
+        rep.exhausted_all &= done;
+        if let Some(f) = fail {
+            rep.failure = Some(f);
+            rep.exhausted_all = false;
+            return rep;
         }
     }
     rep
